@@ -737,17 +737,22 @@ func init() {
 				}
 				// a second proxy instance with the SAME secret but another cookie name: its credentials must
 				// not be accepted here (the cookie name is part of the MAC input)
-				for _, kd := range []string{"cookie", "redis", "csrf"} {
-					other, _ := tmNewEnvMR(c, kd, "_other_proxy", sc.s, sc.lbl, ex, er.mr)
-					O, err := other.save(r, false, now(), "cv-"+tmRandStr(r, 43, tmAlnum))
-					if err != nil {
-						c.violation("HARNESS", "other instance save: "+err.Error(), nil)
-						continue
+				// — including names that differ only by a browser cookie-name prefix, letter case or a leading character
+				for _, on := range []string{"_other_proxy", "__Secure-_oauth2_proxy", "__Host-_oauth2_proxy", "_OAUTH2_PROXY", "oauth2_proxy", "__oauth2_proxy"} {
+					for _, kd := range []string{"cookie", "redis", "csrf"} {
+						other, _ := tmNewEnvMR(c, kd, on, sc.s, sc.lbl, ex, er.mr)
+						O, err := other.save(r, false, now(), "cv-"+tmRandStr(r, 43, tmAlnum))
+						if err != nil {
+							c.violation("HARNESS", "other instance save: "+err.Error(), nil)
+							continue
+						}
+						target := map[string]*tmEnv{"cookie": es, "redis": er, "csrf": ec}[kd]
+						mine := map[string]*tmSaved{"cookie": S, "redis": R, "csrf": C}[kd]
+						target.probe("xname:other-instance-same-secret", []tmNV{{target.vname, O.cookies[0].v}}, []*tmSaved{mine})
+						// and the other way round: this instance's credential presented to the other instance under ITS name
+						other.probe("xname:other-instance-same-secret", []tmNV{{other.vname, mine.cookies[0].v}}, []*tmSaved{O})
+						other.close()
 					}
-					target := map[string]*tmEnv{"cookie": es, "redis": er, "csrf": ec}[kd]
-					mine := map[string]*tmSaved{"cookie": S, "redis": R, "csrf": C}[kd]
-					target.probe("xname:other-instance-same-secret", []tmNV{{target.vname, O.cookies[0].v}}, []*tmSaved{mine})
-					other.close()
 				}
 				es.probe("xname:session-under-part-name", []tmNV{{"_oauth2_proxy_0", sv}}, []*tmSaved{S})
 				es.probe("xname:session-under-part-name", []tmNV{{"_oauth2_proxy_0", sv[:len(sv)/2]}, {"_oauth2_proxy_1", sv[len(sv)/2:]}}, []*tmSaved{S})
